@@ -526,6 +526,24 @@ def run(facts, rep, st):
 
 ACCESS = "Nomt.access_lock"
 SHARED = "Nomt.shared"
+
+
+def resolve_shared_class(facts):
+    """the lock class of the committed-root mutex: the field of `Nomt` that is a Mutex around the struct holding the committed
+    root (a private field may be renamed)"""
+    global SHARED
+    adt = facts.adts.get("nomt::Nomt")
+    for v in (adt or {}).get("variants", []):
+        for f in v.get("fields", []):
+            ty = f.get("ty", "")
+            m = re.search(r"mutex::Mutex<[^,]+, (nomt::[A-Za-z0-9_:]+)>", ty)
+            if not m:
+                continue
+            inner = facts.adts.get(m.group(1))
+            if inner and any(g.get("ty") == "nomt::Root" for vv in inner.get("variants", []) for g in vv.get("fields", [])):
+                SHARED = "Nomt.%s" % f["n"]
+                return SHARED
+    return SHARED
 TREE_SHARED = "beatree::Tree.shared"
 MUTATORS = {
     "nomt::store::Store::commit": "Store::commit",
